@@ -63,8 +63,12 @@ FUND = ["length", "time", "mass"]
 
 
 class System:
-    def __init__(self, rng, tag, power_of_two=True, n_dims=None, compound=True):
+    SHIPPED = {"length": "meter", "time": "second", "mass": "gram"}
+
+    def __init__(self, rng, tag, power_of_two=True, n_dims=None, compound=True, bridge=False):
         self.tag = tag
+        self.bridge = bridge
+        self.shipped = set()
         self.units = {}   # name -> (dimname, size Fraction)
         self.decl_ops = []
         self.edges = []   # (A name, k Fraction, [(B name, exp)])
@@ -80,6 +84,11 @@ class System:
                 size = Fraction(2) ** rng.randint(-6, 6) if power_of_two else Fraction(rng.randint(1, 4000), rng.randint(1, 400))
                 self.units[name] = (d, size)
                 self.by_dim.setdefault(d, []).append(name)
+            if bridge:
+                # user-defined units next to shipped ones: the SI unit of this dimension is one more node (size 1)
+                self.units[self.SHIPPED[d]] = (d, Fraction(1))
+                self.by_dim[d].append(self.SHIPPED[d])
+                self.shipped.add(self.SHIPPED[d])
         # spanning tree per fundamental dimension, in random attachment order
         for d in dims:
             names = list(self.by_dim[d])
@@ -142,7 +151,7 @@ class System:
 
     # ops
     def define_ops(self):
-        return [["define", n, n, ["dimname", d]] for n, (d, _) in self.units.items()]
+        return [["define", n, n, ["dimname", d]] for n, (d, _) in self.units.items() if n not in self.shipped]
 
     @staticmethod
     def rhs_term(rhs):
@@ -232,7 +241,8 @@ def run_systems(ctx, nsys, mode="c04", queries=40):
     rng = ctx.rng
     specs, metas = [], []
     for s in range(nsys):
-        sysm = System(rng, tag=f"{ctx.shard}x{s}")
+        bridge = s % 3 == 2
+        sysm = System(rng, tag=f"{ctx.shard}x{s}", bridge=bridge)
         ops = sysm.define_ops() + [sysm.declare_op(e) for e in sysm.edges]
         meta = []
         for _ in range(queries):
@@ -243,8 +253,10 @@ def run_systems(ctx, nsys, mode="c04", queries=40):
             mag = small_mag(rng)
             ops.append(["convert", mag, sysm.term(src), sysm.term(dst)])
             meta.append((len(ops) - 1, mag, src, dst))
-        specs.append({"modules": [], "ops": ops})
+        specs.append({"modules": ["si"] if bridge else [], "ops": ops})
         metas.append((sysm, meta))
+        if bridge:
+            ctx.count("synthetic/systems_bridged_to_shipped_units")
     logs = run_specs(specs, jobs=max(2, 16 // max(1, ctx.nshards)))
     for (sysm, meta), log, spec in zip(metas, logs, specs):
         ctx.count("synthetic/systems")
